@@ -249,6 +249,15 @@ def ref_eval(doc, segs):
                             nxt.append((n, k, v))
                 elif kind == "search":
                     nxt.extend(_search(p, r, n, seg[1], seg[2], seg[3], seg[4]))
+                elif kind == "anchor":
+                    # every child of the collection carrying the anchor (the anchored node and each alias of it)
+                    def _has(x):
+                        anc = getattr(x, "anchor", None)
+                        return anc is not None and getattr(anc, "value", None) == seg[1]
+                    if isinstance(n, dict):
+                        nxt.extend((n, k, v) for k, v in n.items() if _has(k) or _has(v))
+                    else:
+                        nxt.extend((pp, rr, nn) for (pp, rr, nn) in _children(n) if _has(nn))
                 elif kind == "star":
                     if isinstance(n, (set, CommentedSet)):
                         raise Undefined("'*' over a set")
